@@ -18,13 +18,29 @@ const uint8_t END = 0xc0, ESC = 0xdb, ESC_END = 0xdc, ESC_ESC = 0xdd;
 typedef std::vector<uint8_t> Bytes;
 static RFC1055Context g_last_ctx; static bool g_have_ctx = false;   // the link's context as the last decode call left it
 
+// a second task scheduled at a seam point (see SimSink::maybe_intrude): another link encodes and decodes a frame of its own
+struct SlipIntruder { Ctx *c; int64_t arg; };
+static void second_link_job(void *a) {
+    SlipIntruder &I = *(SlipIntruder *)a; Ctx &c = *I.c; const bool sof = (I.arg & 1) != 0;
+    Bytes pl((size_t)((I.arg >> 1) & 7) + 1); for (size_t i = 0; i < pl.size(); ++i) { static const uint8_t A[5] = {END, ESC, ESC_END, ESC_ESC, 0x41}; pl[i] = A[(I.arg >> (4 + 2 * i)) % 5]; }
+    SimSource s1; SimSink k1; s1.c = &c; k1.c = &c; s1.data = pl; s1.octet_kind = (I.arg & 0x100) != 0; k1.octet_kind = (I.arg & 0x200) != 0;
+    Source so; Sink si; s1.bind(&so); k1.bind(&si);
+    RFC1055Context e; init_context(&e, sof);
+    int rc1 = rfc1055_encode(&e, &so, &si);
+    SimSource s2; SimSink k2; s2.c = &c; k2.c = &c; s2.data = k1.got; Source so2; Sink si2; s2.bind(&so2); k2.bind(&si2);
+    RFC1055Context d; init_context(&d, sof);
+    int rc2 = rfc1055_decode(&d, &so2, &si2);
+    COUNT("probe.second_link_worked_during_a_sink_call");
+    if (rc1 < 0 || rc2 != 1 || k2.got != pl) c.fail("intruder.roundtrip", "a frame of %zu octets encoded and decoded by a second link (%s) while another link's sink call was pending came back wrong (encode %d, decode %d, %zu octets)", pl.size(), sof ? "start-of-frame" : "classic", rc1, rc2, k2.got.size());
+}
+
 struct SlipHarness : Harness {
     const char *name() const override { return "slipsim"; }
     std::vector<std::string> props() const override { return {"C12"}; }
     std::vector<std::string> probes(const std::string &) const override {
         return {"garbage_ends_in_esc", "garbage_without_delimiter", "garbage_esc_followed_by_end", "sof_first_frame_lost", "empty_frame_sof", "empty_frame_classic",
                 "sink_error_on_escaped_octet", "encoder_source_error", "encoder_sink_error", "decoder_source_error", "decoder_sink_error", "illegal_sequence_reported",
-                "resynchronised_after_garbage", "concatenated_frames", "worst_case_length_reached", "source_error_between_frames_then_retry", "encode_while_decoder_is_inside_a_frame", "context_from_static_initialiser"};
+                "resynchronised_after_garbage", "concatenated_frames", "worst_case_length_reached", "source_error_between_frames_then_retry", "encode_while_decoder_is_inside_a_frame", "context_from_static_initialiser", "second_link_worked_during_a_sink_call"};
     }
     uint64_t runs(const std::string &, const Tier &t) const override { return t.thorough() ? 30000000 : 2500000; }
 
@@ -69,6 +85,7 @@ struct SlipHarness : Harness {
         Json p = Json::obj();
         bool sof = r.chance(1, 2);
         p["sof"] = sof; if (r.chance(1, 3)) p["static_init"] = 1;
+        if (r.chance(1, 5)) { Json ij = Json::arr(); ij.push((long long)r.below(12)); ij.push((long long)r.below(1 << 24)); p["intrude"] = ij; }
         p["src_octet"] = r.chance(1, 2); p["snk_octet"] = r.chance(1, 2);
         int maxlen = t.thorough() ? (r.chance(1, 10) ? 1024 : (r.chance(1, 3) ? 64 : 9)) : 9;
         bool full = t.thorough() ? r.chance(1, 2) : r.chance(1, 4);
@@ -154,6 +171,8 @@ struct SlipHarness : Harness {
 
     struct Dec {
         Ctx &c; SimSource src; SimSink snk; Source source; Sink sink; RFC1055Context ctx;
+        SlipIntruder intr{nullptr, 0};
+        void arm(const Json &plan) { if (!plan.has("intrude")) return; intr.c = &c; intr.arg = plan.get("intrude").ati(1, 0) & 0xffffff; snk.intrude_at = plan.get("intrude").ati(0, 0) & 15; snk.intruder = second_link_job; snk.intruder_arg = &intr; }
         Dec(Ctx &cc, bool sof, bool so, bool ko, const Bytes &line) : c(cc) {
             src.c = &cc; snk.c = &cc; src.octet_kind = so; snk.octet_kind = ko; src.data = line;
             src.bind(&source); snk.bind(&sink);
@@ -163,7 +182,7 @@ struct SlipHarness : Harness {
         int call(Bytes &frame, size_t &consumed, bool &finished) {
             size_t s0 = snk.got.size(), p0 = src.pos;
             src.begin_op(); // keep sink script across calls
-            snk.calls = 0; snk.errors.clear();
+            snk.errors.clear();
             int rc = 0;
             finished = WITH_BUDGET(c, 4 * (src.data.size() - src.pos) + 64, rc = rfc1055_decode(&ctx, &source, &sink));
             c.ev(EV_API, 2, (uint64_t)(int64_t)rc, snk.got.size() - s0);
@@ -242,7 +261,7 @@ struct SlipHarness : Harness {
         last_F = F; last_encs = encs;
 
         if (fam == "roundtrip" || fam == "errors") {
-            Dec D(c, sof, so, ko, line);
+            Dec D(c, sof, so, ko, line); D.arm(plan);
             if (where == 2) { D.src.err_pos = fpos; D.src.err_code = fcode; }
             if (where == 3) { D.snk.err_pos = fpos; D.snk.err_code = fcode; }
             if (partial && fam == "roundtrip") D.snk.script.load(*partial);
@@ -283,7 +302,7 @@ struct SlipHarness : Harness {
             if (!g.empty() && g.back() == ESC) COUNT("probe.garbage_ends_in_esc");
             if (std::find(g.begin(), g.end(), END) == g.end() && !g.empty()) COUNT("probe.garbage_without_delimiter");
             for (size_t i = 0; i + 1 < g.size(); ++i) if (g[i] == ESC && g[i + 1] == END) { COUNT("probe.garbage_esc_followed_by_end"); break; }
-            Dec D(c, sof, so, ko, all);
+            Dec D(c, sof, so, ko, all); D.arm(plan);
             // optionally the line fails once / runs dry exactly at the start of a clean frame and is read again
             std::vector<size_t> bounds; { size_t b = g.size(); for (auto &e : encs) { bounds.push_back(b); b += e.size(); } }
             int dcode = 0; int64_t drearm = 0; size_t dnext = 0;
@@ -343,7 +362,7 @@ struct SlipHarness : Harness {
 
         if (fam == "raw") {
             Bytes raw = unhex(plan.gets("raw"));
-            Dec D(c, sof, so, ko, raw);
+            Dec D(c, sof, so, ko, raw); D.arm(plan);
             // reference state machine (classic mode), written from RFC 1055 + the property text
             size_t rp = 0; bool skipping = false;
             size_t calls = 0;
